@@ -72,7 +72,9 @@ def gen_case(seed, tier):
         if r < 0.16:
             op = {'op': rng.choice(('append', 'appendleft')), 'v': v}
         elif r < 0.24:
-            op = {'op': rng.choice(('extend', 'extendleft', 'iadd')), 'vs': [rng.choice(SMALL) for _ in range(rng.randint(0, 4))]}
+            op = {'op': rng.choice(('extend', 'extendleft', 'iadd')), 'vs': [rng.choice(SMALL) for _ in range(rng.randint(0, 4))],
+                  # what is handed over: a list, a generator, a generator that raises after the items, or the deque itself
+                  'src': rng.choice(('list', 'list', 'gen', 'raise', 'self'))}
         elif r < 0.36:
             op = {'op': rng.choice(('pop', 'popleft', 'peek', 'peekleft'))}
         elif r < 0.46:
@@ -125,19 +127,35 @@ def apply_both(dq, ref, op):
     if name in ('append', 'appendleft'):
         v = vals.dec(op['v'])
         return _norm(lambda: getattr(dq, name)(v)), _norm(lambda: getattr(ref, name)(v))
-    if name in ('extend', 'extendleft'):
+    if name in ('extend', 'extendleft', 'iadd'):
         vs = [vals.dec(x) for x in op['vs']]
-        return _norm(lambda: getattr(dq, name)(vs)), _norm(lambda: getattr(ref, name)(vs))
-    if name == 'iadd':
-        vs = [vals.dec(x) for x in op['vs']]
+        src = op.get('src', 'list')
+
+        def source(me):
+            if src == 'self':
+                return me
+            if src == 'list':
+                return vs
+
+            def gen():
+                for v in vs:
+                    yield v
+                if src == 'raise':
+                    raise ZeroDivisionError('the iterable fails after %d items' % len(vs))
+            return gen()
+
+        if name != 'iadd':
+            return _norm(lambda: getattr(dq, name)(source(dq))), _norm(lambda: getattr(ref, name)(source(ref)))
 
         def a():
             d = dq
-            d += vs
+            d += source(dq)
+            return d is dq
 
         def b():
             r = ref
-            r += vs
+            r += source(ref)
+            return r is ref
         return _norm(a), _norm(b)
     if name in ('pop', 'popleft'):
         return _norm(getattr(dq, name)), _norm(getattr(ref, name))
